@@ -1,7 +1,8 @@
 (* Run/C06.v — Sx codec around Model/DiskCache.v for the correspondence check.
    leg disk:
      case   = ( cap ( (key pid plen elen mtime) ... ) ( thread ... ) ( tid ... ) )
-     thread = ( put key pid plen elen nchunks ) | ( get key )
+     thread = ( put key pid plen elen nchunks fail ) | ( get key )
+              (fail = 1: the write fails after elen/2 bytes, written in nchunks pieces, and the call abandons)
      result = ( ( r ... ) ( o ... ) ntmp size ( o ... ) ntmp size )
    key is the cache key (hex string); the path is make_key_path key.  An initial file whose
    name starts with '.' is placed in the root under that very name (leftover temp files).
@@ -31,9 +32,10 @@ Fixpoint split_chunks (v : list N) (q : nat) (n : nat) : list (list N) :=
   | S n' => firstn q v :: split_chunks (skipn q v) q n'
   end.
 
-Definition chunks_of (pid elen nch : N) : list (list N) :=
+Definition chunks_of (pid elen nch : N) (fail : bool) : list (list N) :=
   let nch := if nch =? 0 then 1 else nch in
-  split_chunks (value pid elen) (N.to_nat (elen / nch)) (N.to_nat nch - 1).
+  let total := if fail then elen / 2 else elen in
+  split_chunks (value pid total) (N.to_nat (total / nch)) (N.to_nat nch - 1).
 
 (* declared entries: (key, pid, elen) *)
 Definition decl := (list N * N * N)%type.
@@ -60,9 +62,10 @@ Definition mk_disk (init : list (list N * N * N * N)) : disk :=
 
 Definition dec_thread (x : sx) : option (thread * option decl) :=
   match x with
-  | SL [t; k; pid; _; elen; nch] =>
+  | SL [t; k; pid; _; elen; nch; fl] =>
       if is_sym "put" t then
-        Some (TPut (make_key_path (get_B k)) (get_N elen) (chunks_of (get_N pid) (get_N elen) (get_N nch)) false,
+        Some (TPut (make_key_path (get_B k)) (get_N elen)
+                   (chunks_of (get_N pid) (get_N elen) (get_N nch) (get_bool fl)) (get_bool fl),
               Some (get_B k, get_N pid, get_N elen))
       else None
   | SL [t; k] => if is_sym "get" t then Some (TGet (make_key_path (get_B k)), None) else None
